@@ -7,7 +7,7 @@ discriminant of an already moved-out variant, is infeasible and is not a destruc
 import os
 import re
 
-from .facts import VERIF, callee_def, feasible_states, is_bare, op_place
+from .facts import VERIF, callee_def, feasible_states, is_bare, op_place, op_const
 from .util import ends, fn_key, callee_method
 
 ITER_TYPES = ("std::vec::IntoIter<", "std::vec::Drain<", "std::iter::FilterMap<", "std::iter::Map<",
@@ -155,5 +155,37 @@ def check_counts(ctx, rid, table, seen_counts):
         row = table.get(key)
         if row is not None and n > row.count:
             ctx.violation(rid, "%s:drop(%s):site-count" % key, "", key[0],
-                          "the reviewed table row covers %d destruction site(s) of `%s` in this function but %d are "
+                          "the reviewed table row covers %d way(s) into a destruction site of `%s` in this function but %d are "
                           "feasible now: a new site needs review" % (row.count, key[1], n))
+
+
+def incoming_paths(b, bb, depth=12):
+    """number of distinct non-trivial ways into block bb: predecessors that only shuffle drop flags and
+    jump are looked through.  Used to notice a *new* path into an already reviewed destruction site."""
+    flags = None
+    seen = set()
+    count = 0
+    work = [(bb, 0)]
+    while work:
+        x, d = work.pop()
+        for p in b.pred(x):
+            if p not in b.reachable() or (p, x) in seen:
+                continue
+            seen.add((p, x))
+            trivial = b.term(p)["k"] in ("goto", "drop") and all(_flag_stmt(b, st) for st in b.stmts(p)) and d < depth
+            if trivial and b.pred(p):
+                work.append((p, d + 1))
+            else:
+                count += 1
+    return max(count, 1)
+
+
+def _flag_stmt(b, st):
+    if st["k"] != "assign" or st["lhs"]["p"]:
+        return False
+    rv = st["rv"]
+    if "use" in rv and op_const(rv["use"]) is not None and b.local_ty(st["lhs"]["l"]) in ("bool", "()"):
+        return True
+    if "discr" in rv:
+        return True
+    return False
